@@ -124,7 +124,7 @@ func c10RefuseCodes(p *Prog, c *Check) {
 			}
 			c.Result(kind == "refuse", rule, fmt.Sprintf("%s:ret@%s", s, retKey(fi, r)), p.siteOf(r), shortFn(fn), "early return "+t.s, "an early exit (undecodable, wrong chain, replayed, non-member) does not carry a non-zero code", "non-zero code")
 		}
-		c.Floor(rule+"."+fn.Name(), n, 3)
+		c.Floor(rule+"."+fn.Name(), n, 1)
 	}
 }
 
